@@ -395,6 +395,35 @@ impl Builtins {
         panic!("BUG: all branches should return in convert - translator emitted wrong opcode sequence");
     }
 
+    /// Checks that a map/filter/reduce callback takes the number of arguments
+    /// the hook is going to pass for this kind of target.
+    fn check_callback_arity(
+        f: &super::Func,
+        target: &Value,
+        extra: usize,
+        what: &str,
+        pos: &Position,
+    ) -> Result<(), Error> {
+        let expected = match target {
+            C(List(_, _)) | P(Str(_)) => 1 + extra,
+            C(Tuple(_, _)) => 2 + extra,
+            _ => return Ok(()),
+        };
+        if f.bindings.len() != expected {
+            return Err(Error::new(
+                format!(
+                    "{} function must take {} arguments for this target but takes {}",
+                    what,
+                    expected,
+                    f.bindings.len()
+                )
+                .into(),
+                pos.clone(),
+            ));
+        }
+        Ok(())
+    }
+
     fn map<O, E>(
         &self,
         stack: &mut Vec<(Rc<Value>, Position)>,
@@ -424,6 +453,7 @@ impl Builtins {
         } else {
             return Err(Error::new("Not a function!!".to_string().into(), fptr_pos));
         };
+        Self::check_callback_arity(f, list.as_ref(), 0, "Map", &fptr_pos)?;
 
         match *list.as_ref() {
             C(List(ref elems, ref elems_pos_list)) => {
@@ -530,6 +560,7 @@ impl Builtins {
         } else {
             return Err(Error::new("Not a function!!".into(), fptr_pos));
         };
+        Self::check_callback_arity(f, list.as_ref(), 0, "Filter", &fptr_pos)?;
 
         match *list.as_ref() {
             C(List(ref elems, ref elems_pos_list)) => {
@@ -678,6 +709,7 @@ impl Builtins {
         } else {
             return Err(Error::new("Noe a function!".into(), fptr_pos));
         };
+        Self::check_callback_arity(f, list.as_ref(), 1, "Reduce", &fptr_pos)?;
 
         match *list.as_ref() {
             C(List(ref elems, ref elems_pos_list)) => {
